@@ -92,12 +92,12 @@ def c02(tier, seed):
                                                      ("c02_2x3u", ops + ["try_unwrap"], 2, 3, 2, False)]),
                 tr("C02", tier, "threads_q", seed), inj("C02", tier), inj_dev("C02", tier),
                 # a read through a handle that unwinds (panicking callback / comparison / hash impl) must leave every count alone
-                ] + c02_reads(tier)
+                ] + c02_reads(tier) + swaps("C02", tier, seed, hows=("init", "thin"))
     return [mm("C02", tier, "mm_clone_drop_t", [("c02_2x3", ops, 2, 3, 2, False), ("c02_3x3", ops, 3, 3, 1, False),
                                                  ("c02_4x2", ops, 4, 2, 1, False), ("c02_2x5", ops, 2, 5, 2, False),
                                                  ("c02_3x2h", ops + ["count"], 3, 2, 1, True),
                                                  ("c02_3x2u", ops + ["try_unwrap"], 3, 2, 1, False)]),
-            tr("C02", tier, "threads_t", seed), inj("C02", tier), inj_dev("C02", tier)] + c02_reads(tier)
+            tr("C02", tier, "threads_t", seed), inj("C02", tier), inj_dev("C02", tier)] + c02_reads(tier) + swaps("C02", tier, seed, hows=("init", "thin"))
 
 
 def lay(prop, tier, name):
@@ -166,6 +166,7 @@ def c15(tier, seed):
                 # every payload shape through the uninit constructors: the block asked for is the block given back
                 lay("C15", tier, "layout_matrix_q"),
                 # a block built through the uninit constructors with a recorded length of its own, then made thin
+                stage(CT.ctor_stage, "C15", tier, "ctor_uninit_q", ["fhi", "thin", "collect"], True, only_cats=["contents", "baddrop", "drops", "overrun", "crash"]),
                 thin("C15", tier, "thin_reclen_q", ["NewFat", "NewThin", "Clone", "Drop", "IntoThin", "FromThin", "ProtFromThin", "ProtIntoThin"], 3, 2, 1, 2)] + swaps("C15", tier, seed, hows=("uninit",))
     return [uninit("C15", tier, "uninit_t", 3, 2, 3), uninit("C15", tier, "uninit_t4", 4, 2, 2),
             uninit("C15", tier, "uninit_walks_t", 5, 4, 5, simulate=(10000, 60, seed)),
@@ -174,6 +175,7 @@ def c15(tier, seed):
             mm("C15", tier, "mm_deprecated_write_t", [("c15_2x4", ["clone", "read", "drop", "get_mut"], 2, 4, 2, False), ("c15_3x2", ["clone", "read", "drop", "get_mut"], 3, 2, 1, False)]),
             stage(CT.ctor_stage, "C15", tier, "release_t", ["release"], True, only_cats=["frees", "drops", "baddrop", "leak", "crash", "panicked"]),
             lay("C15", tier, "layout_matrix_t"),
+            stage(CT.ctor_stage, "C15", tier, "ctor_uninit_t", ["fhi", "thin", "collect"], True, only_cats=["contents", "baddrop", "drops", "overrun", "crash"]),
             thin("C15", tier, "thin_reclen_t", ["NewFat", "NewThin", "Clone", "Drop", "IntoThin", "FromThin", "ProtFromThin", "ProtIntoThin"], 4, 2, 1, 3)] + swaps("C15", tier, seed, hows=("uninit",))
 
 
@@ -283,7 +285,8 @@ def c01(tier, seed):
                 nested_frames("C01", tier), thin_lengths("C01", tier), inj("C01", tier), inj_dev("C01", tier),
                 # every release path of every shape returns the block once; real ArcSwap traffic keeps counts exact
                 lay("C01", tier, "layout_matrix_q"),
-                stage(CT.ctor_stage, "C01", tier, "release_q", ["release", "union_drop", "zst"], True, only_cats=["frees", "drops", "baddrop", "leak", "crash", "panicked"])] + swaps("C01", tier, seed) + long_walks("C01", tier, seed)
+                stage(CT.ctor_stage, "C01", tier, "release_q", ["release", "union_drop", "zst"], True, only_cats=["frees", "drops", "baddrop", "leak", "crash", "panicked"]),
+                stage(CT.ctor_stage, "C01", tier, "ctor_life_q", ["fhi", "thin", "collect", "vec"], True, only_cats=["drops", "baddrop", "layout", "overrun", "crash"])] + swaps("C01", tier, seed) + long_walks("C01", tier, seed)
     return [sized("C01", tier, "sized_life_t", BASE + CONV + BORROW + ["TryUnique"], 4, 2, 2),
             sized("C01", tier, "sized_life_t5", BASE + CONV_CORE + ["Enter", "Exit"], 5, 2, 1, hows=("new", "newB")),
             walks("C01", tier, seed),
@@ -294,7 +297,8 @@ def c01(tier, seed):
             thin("C01", tier, "thin_life_debug_t", THIN_OPS, 4, 2, 1, 2, harness_cfg="d"),
             mm("C01", tier, "mm_clone_drop_t", [("c01_2x3", ["clone", "read", "drop"], 2, 3, 2, False), ("c01_3x3", ["clone", "read", "drop"], 3, 3, 1, False)]), inj("C01", tier), inj_dev("C01", tier),
             lay("C01", tier, "layout_matrix_t"),
-            stage(CT.ctor_stage, "C01", tier, "release_t", ["release", "union_drop", "zst"], True, only_cats=["frees", "drops", "baddrop", "leak", "crash", "panicked"])] + swaps("C01", tier, seed) + long_walks("C01", tier, seed)
+            stage(CT.ctor_stage, "C01", tier, "release_t", ["release", "union_drop", "zst"], True, only_cats=["frees", "drops", "baddrop", "leak", "crash", "panicked"]),
+                stage(CT.ctor_stage, "C01", tier, "ctor_life_t", ["fhi", "thin", "collect", "vec"], True, only_cats=["drops", "baddrop", "layout", "overrun", "crash"])] + swaps("C01", tier, seed) + long_walks("C01", tier, seed)
 
 
 def c03(tier, seed):
@@ -322,13 +326,17 @@ def c04(tier, seed):
                 tr("C04", tier, "threads_q", seed), inj("C04", tier), stage(AP.ind_stage, "C04", tier, "apalache_inductive_q"),
                 # comparing, hashing or formatting never changes a count, not even while it is in progress
                 stage(CT.ctor_stage, "C04", tier, "observers_q", ["observe"], True, only_cats=["count", "crash"]),
-                stage(CT.ctor_stage, "C04", tier, "ctor_counts_q", ["fhi", "thin", "collect", "vec", "slice", "str"], False, only_cats=["count", "crash"])] + swaps("C04", tier, seed) + long_walks("C04", tier, seed)
+                stage(CT.ctor_stage, "C04", tier, "ctor_counts_q", ["fhi", "thin", "collect", "vec", "slice", "str"], False, only_cats=["count", "crash"]),
+                stage(CT.ctor_stage, "C04", tier, "ctor_faulty_q", ["fhi", "thin", "collect"], True, only_cats=["count", "drops", "baddrop", "crash"]),
+                stage(OV.overflow_stage, "C04", tier, "overflow_q")] + swaps("C04", tier, seed) + long_walks("C04", tier, seed)
     return [sized("C04", tier, "sized_count_t", ops, 4, 2, 2), walks("C04", tier, seed),
             thin("C04", tier, "thin_count_t", THIN_OPS, 4, 2, 2, 2), slices("C04", tier, "slices_count_t", 4, 2, 2),
             tr("C04", tier, "threads_t", seed), inj("C04", tier), stage(AP.ind_stage, "C04", tier, "apalache_inductive_t"),
                 # comparing, hashing or formatting never changes a count, not even while it is in progress
                 stage(CT.ctor_stage, "C04", tier, "observers_t", ["observe"], True, only_cats=["count", "crash"]),
-                stage(CT.ctor_stage, "C04", tier, "ctor_counts_t", ["fhi", "thin", "collect", "vec", "slice", "str"], False, only_cats=["count", "crash"])] + swaps("C04", tier, seed) + long_walks("C04", tier, seed)
+                stage(CT.ctor_stage, "C04", tier, "ctor_counts_t", ["fhi", "thin", "collect", "vec", "slice", "str"], False, only_cats=["count", "crash"]),
+                stage(CT.ctor_stage, "C04", tier, "ctor_faulty_t", ["fhi", "thin", "collect"], True, only_cats=["count", "drops", "baddrop", "crash"]),
+                stage(OV.overflow_stage, "C04", tier, "overflow_t")] + swaps("C04", tier, seed) + long_walks("C04", tier, seed)
 
 
 # what can be compared when payloads have no destructor to report from
@@ -357,7 +365,7 @@ def c08(tier, seed):
 
 
 def c09(tier, seed):
-    ops = BASE + CONV_CORE + UNWRAP + ["TryUnique", "Borrow", "Enter", "Exit", "Unsize", "UnsizeUnq", "ShareableDyn", "IsUnique"]
+    ops = BASE + CONV_CORE + UNWRAP + ["TryUnique", "Borrow", "Enter", "Exit", "Unsize", "UnsizeUnq", "ShareableDyn", "IsUnique", "MakeMut"]
     mops = ["try_unwrap", "unwrap_or_clone", "drop", "get_mut", "clone"]
     if tier == "quick":
         return [sized("C09", tier, "sized_unwrap_q", ops, 3, 2, 1),
@@ -385,11 +393,11 @@ def c12(tier, seed):
         return [sized("C12", tier, "sized_union_q", ops, 4, 2, 1, hows=("new", "newB")), lay("C12", tier, "layout_matrix_q"),
                 stage(CM.compare_stage, "C12", tier, "union_variants_q", only=["different variants"]),
                 stage(CT.ctor_stage, "C12", tier, "union_release_q", ["union_drop"], True), inj("C12", tier),
-                stage(LY.widths_stage, "C12", tier, "widths_q")]
+                stage(LY.widths_stage, "C12", tier, "widths_q"), stage(OV.overflow_stage, "C12", tier, "overflow_q")]
     return [sized("C12", tier, "sized_union_t", ops, 5, 2, 1, hows=("new", "newB")), lay("C12", tier, "layout_matrix_t"),
             stage(CM.compare_stage, "C12", tier, "union_variants_t", only=["different variants"]),
             stage(CT.ctor_stage, "C12", tier, "union_release_t", ["union_drop"], True), inj("C12", tier),
-                stage(LY.widths_stage, "C12", tier, "widths_t")]
+                stage(LY.widths_stage, "C12", tier, "widths_t"), stage(OV.overflow_stage, "C12", tier, "overflow_t")]
 
 
 GRAPH_ASSUME = [
